@@ -99,6 +99,7 @@ type c14Sess struct {
 	// consumed, so that a client can replay a response to a consumed challenge
 	cur, prev         *ntlmc.Challenge
 	lastCur, lastPrev *ntlmc.Challenge
+	limbo             *ntlmc.Challenge // the challenge held before an undecodable message was refused: the property does not say whether such a message uses it up
 	fresh             bool // the last operation on this session was the negotiate that issued cur
 	aged              bool // clock advanced past the context lifetime since cur was issued
 }
@@ -144,6 +145,7 @@ func c14Run(hist []c14Op, rep *Report) (viol, detail string, trace []string) {
 			}
 			s := sess[op.Sess]
 			s.prev, s.cur, s.fresh, s.aged = s.cur, ch, true, false
+			s.limbo = nil
 			s.lastPrev, s.lastCur = s.lastCur, ch
 			trace = append(trace, op.String()+" -> challenge")
 		case "garbage":
@@ -163,6 +165,11 @@ func c14Run(hist []c14Op, rep *Report) (viol, detail string, trace []string) {
 			// an undecodable message may or may not drop the session's context
 			sess[op.Sess].fresh = false
 			if err != nil {
+				// refused: whether the session's challenge survives is unspecified ("the following
+				// authenticate message" may or may not be the next decodable one)
+				if sess[op.Sess].cur != nil {
+					sess[op.Sess].limbo = sess[op.Sess].cur
+				}
 				sess[op.Sess].cur, sess[op.Sess].prev = nil, nil
 			}
 			trace = append(trace, fmt.Sprintf("%s -> err=%v", op, err != nil))
@@ -196,8 +203,13 @@ func c14Run(hist []c14Op, rep *Report) (viol, detail string, trace []string) {
 			}
 			got := r != nil && r.Authenticated
 			cfg, known := c14DB[op.Claimed]
-			proof := known && cfg != "" && op.Pw == cfg && (op.KeyUser == "" || op.KeyUser == op.Claimed) && s.cur != nil && ch == s.cur
+			keyed := known && cfg != "" && op.Pw == cfg && (op.KeyUser == "" || op.KeyUser == op.Claimed)
+			proof := keyed && s.cur != nil && ch == s.cur
+			maybe := keyed && s.limbo != nil && ch == s.limbo && !s.aged
+			s.limbo = nil
 			switch {
+			case got && !proof && maybe && r.Username == op.Claimed:
+				// proof against the challenge that an undecodable message in between may or may not have used up
 			case got && !proof:
 				why := "wrong or no proof"
 				if op.KeyUser != "" && op.KeyUser != op.Claimed {
@@ -225,7 +237,7 @@ func c14Run(hist []c14Op, rep *Report) (viol, detail string, trace []string) {
 func c14(env *Env, rep *Report) {
 	rep.Rule = "every history up to depth d over an operation alphabet on two NTLM sessions: negotiate(s); authenticate(s, claimed user in {alice,bob,carol(empty password),dave(same password as alice),mallory(unknown),ALICE}, response keyed with {claimed user's configured password, a wrong password, the empty password, bob's password as bob, alice's password as alice}, challenge in {current of s, previous of s, current of the other session, zeros, none (zero-length)}); garbage(s, {not base64, empty, type 2, truncated type 3}); clock +61 s. " +
 		"quick: reduced alphabet (39 ops) to depth 3, full alphabet (255 ops) to depth 2; thorough: full alphabet to depth 3, reduced to depth 4. Each history is one execution against a fresh real verifier (cmd/auth/ntlm) with messages built by an independent NTLMv2 implementation. " +
-		"Oracle (three-valued): authenticated without a response keyed by the claimed user's configured non-empty password over the session's latest challenge => violation; honest exchange (negotiate then matching authenticate, nothing in between on that session, no clock jump) refused => violation; success must return exactly the claimed configured name; everything else (e.g. a second correct attempt after a failed one) is unspecified. distinct_nontrivial = histories executed."
+		"Oracle (three-valued): authenticated without a response keyed by the claimed user's configured non-empty password over the session's latest challenge => violation; honest exchange (negotiate then matching authenticate, nothing in between on that session, no clock jump) refused => violation; success must return exactly the claimed configured name; everything else (e.g. a second correct attempt after a failed one, or a correct response to the challenge that was current when an undecodable message was refused) is unspecified. distinct_nontrivial = histories executed."
 	rep.Assumptions = append(rep.Assumptions, "user database {alice:pw1, bob:pw2, carol:\"\", dave:pw1}", "no merging of histories: the verifier's hidden state (cached keys, contexts) is exactly what the property is about")
 	red, full := c14Alphabet(false), c14Alphabet(true)
 	if env.Replay != nil {
